@@ -2,7 +2,7 @@
   Round-trip, fourth layer: FETCH attributes (msg-att), the attribute list, FETCH responses, and the
   untagged-response wrapper; plus the simple untagged data responses.
 -/
-import ImapVerif.Proofs.RT3
+import ImapVerif.Proofs.RTFlags
 
 open Bytes Parser Grammar
 
@@ -74,15 +74,10 @@ inductive EncAttr : AttributeValue → Bytes → Prop
       EncAttr (.uid n) (spell (b!"UID ") m ++ e)
   | gmailMsgId (m : List Bool) (n : Nat) (e : Bytes) : n < 2 ^ 64 → EncNumber n e →
       EncAttr (.gmailMsgId n) (spell (b!"X-GM-MSGID ") m ++ e)
-
-/-- what may follow an attribute inside the list: a space or the closing parenthesis -/
-def spaceOrClose (c : UInt8) : Bool := c == 32 || c == 41
-
-theorem spaceOrClose_notDigit (r : Bytes) (h : Starts spaceOrClose r) : Starts notDigit r := by
-  obtain ⟨c, t, hr, hc⟩ := h
-  refine ⟨c, t, hr, ?_⟩
-  simp only [spaceOrClose, Bool.or_eq_true, beq_iff_eq] at hc
-  rcases hc with rfl | rfl <;> decide
+  | flags (m : List Bool) (vs : List Bytes) (e : Bytes) : EncList EncFlagPerm vs e →
+      EncAttr (.flags vs) (spell (b!"FLAGS ") m ++ e)
+  | gmailLabels (m : List Bool) (vs : List Bytes) (e : Bytes) : EncList EncLabel vs e →
+      EncAttr (.gmailLabels vs) (spell (b!"X-GM-LABELS ") m ++ e)
 
 theorem encNString_head (v : Option Bytes) (e : Bytes) (h : EncNString v e) :
     ∃ c t, e = c :: t ∧ (c = 34 ∨ c = 123 ∨ c = 78 ∨ c = 110) := by
@@ -234,6 +229,36 @@ theorem msgAtt_enc (v : AttributeValue) (e : Bytes) (h : EncAttr v e) :
       refine Parses.bind (tagNoCase_spell _ m) ?_ (fun _ _ => trivial)
       exact (number_enc (2 ^ 64) n e he hn).weaken spaceOrClose_notDigit
     · intro rest _; rw [List.append_assoc]; exact msgAttGmailLabels_err _ _ _ (by decide)
+    · intro rest _; rw [List.append_assoc]; exact msgAttUid_err _ _ _ (by decide)
+    · intro rest _; rw [List.append_assoc]; exact msgAttRfc822Text_err _ _ _ (by decide)
+    · intro rest _; rw [List.append_assoc]; exact msgAttRfc822Size_err _ _ _ (by decide)
+    · intro rest _; rw [List.append_assoc]; exact msgAttRfc822Header_err _ _ _ (by decide)
+    · intro rest _; rw [List.append_assoc]; exact msgAttRfc822_err _ _ _ (by decide)
+    · intro rest _; rw [List.append_assoc]; exact msgAttModSeq_err _ _ _ (by decide)
+    · intro rest _; rw [List.append_assoc]; exact msgAttFlags_err _ _ _ (by decide)
+    · intro rest _; rw [List.append_assoc]; exact msgAttInternalDate_err _ _ _ (by decide)
+    · intro rest _; rw [List.append_assoc]; exact msgAttEnvelope_err _ _ _ (by decide)
+    · intro rest _; rw [List.append_assoc]; exact msgAttBody_err _ _ _ (by decide)
+    · intro rest _; rw [List.append_assoc]; exact msgAttBodyStructure_err _ _ _ (by decide)
+    · intro rest _; rw [List.append_assoc]; exact msgAttBodySection_err _ _ _ (by decide)
+  | flags m vs e he =>
+    refine Parses.altR (Parses.altR (Parses.altR (Parses.altR (Parses.altR (Parses.altL ?_) ?_) ?_) ?_) ?_) ?_
+    · unfold msgAttFlags
+      refine Parses.bind (tagNoCase_spell _ m) ?_ (fun _ _ => trivial)
+      exact Parses.bind' (flagList_enc vs e he Any) (Parses.pure _ _) (fun _ _ => trivial) (by simp)
+    · intro rest _; rw [List.append_assoc]; exact msgAttInternalDate_err _ _ _ (by decide)
+    · intro rest _; rw [List.append_assoc]; exact msgAttEnvelope_err _ _ _ (by decide)
+    · intro rest _; rw [List.append_assoc]; exact msgAttBody_err _ _ _ (by decide)
+    · intro rest _; rw [List.append_assoc]; exact msgAttBodyStructure_err _ _ _ (by decide)
+    · intro rest _; rw [List.append_assoc]; exact msgAttBodySection_err _ _ _ (by decide)
+  | gmailLabels m vs e he =>
+    refine Parses.altR (Parses.altR (Parses.altR (Parses.altR (Parses.altR (Parses.altR (Parses.altR
+      (Parses.altR (Parses.altR (Parses.altR (Parses.altR (Parses.altR (Parses.altL ?_) ?_) ?_) ?_) ?_) ?_) ?_) ?_)
+      ?_) ?_) ?_) ?_) ?_
+    · unfold msgAttGmailLabels gmailLabelList
+      refine Parses.map _ ?_
+      refine Parses.bind (tagNoCase_spell _ m) ?_ (fun _ _ => trivial)
+      exact parenthesizedList_enc label_enc label_err_close vs e he _
     · intro rest _; rw [List.append_assoc]; exact msgAttUid_err _ _ _ (by decide)
     · intro rest _; rw [List.append_assoc]; exact msgAttRfc822Text_err _ _ _ (by decide)
     · intro rest _; rw [List.append_assoc]; exact msgAttRfc822Size_err _ _ _ (by decide)
